@@ -181,11 +181,30 @@ def r4_error_vs_empty(ctx, res):
         res.find(key, f.module.loc(f.node), 'the `found` flag is no longer initialised false and set for every yielded row')
     lx = ctx.repo.func('_core', 'lexicons')
     key = 'lexicons-empty-on-error'
-    tries = [n for n in walk_no_nested(lx.node) if isinstance(n, ast.Try)]
-    res.inst(key, lx.module.loc(lx.node), f'{[norm(h.type) for t in tries for h in t.handlers if h.type]}')
-    ok = len(tries) == 1 and len(tries[0].handlers) == 1 and tries[0].handlers[0].type is not None \
-        and norm(tries[0].handlers[0].type) == 'wn.Error' and norm(tries[0].handlers[0].body[-1]) == 'return []' \
-        and 'Wordnet(lang=lang, lexicon=lexicon)' in norm(tries[0].body[0])
+    from ..speccheck import view as _view
+    lv = _view(ctx, '_core', 'lexicons')
+    rets = [r for r in lv.rows if r[0] == 'return']
+    caught = [r for r in rets if any(g.startswith('<except') for g in r[2])]
+    plain = [r for r in rets if r not in caught]
+    res.inst(key, lx.module.loc(lx.node), f'{[(r[1][:50], sorted(r[2])) for r in rets]}')
+    wparams = [a.arg for a in ctx.repo.func('_core', 'Wordnet.__init__').node.args.args[1:]]
+
+    def _selects_request(text):
+        # `Wordnet(<lexicon>, <lang>).lexicons()` with the arguments bound by parameter name
+        try:
+            e = ast.parse(text, mode='eval').body
+        except SyntaxError:
+            return False
+        if not (isinstance(e, ast.Call) and isinstance(e.func, ast.Attribute) and e.func.attr == 'lexicons' and not e.args and not e.keywords):
+            return False
+        w = e.func.value
+        if not (isinstance(w, ast.Call) and norm(w.func).split('.')[-1] == 'Wordnet') or any(isinstance(a, ast.Starred) for a in w.args):
+            return False
+        b = dict(zip(wparams, w.args))
+        b.update({k.arg: k.value for k in w.keywords if k.arg})
+        return set(b) == {'lexicon', 'lang'} and norm(b['lexicon']) == 'lexicon' and norm(b['lang']) == 'lang'
+    ok = len(caught) == 1 and caught[0][1] == '[]' and set(caught[0][2]) == {'<except wn.Error>'} \
+        and len(plain) == 1 and not plain[0][2] and _selects_request(plain[0][1])
     if not ok:
         res.find(key, lx.module.loc(lx.node), 'wn.lexicons() no longer converts exactly wn.Error from Wordnet(...) into an empty list')
     wi = ctx.repo.func('_core', 'Wordnet.__init__')
